@@ -315,6 +315,73 @@ def rule_tpl_verb(ctx):
             ctx.report(f"ToTokens:{ty}", ctx.where(fn.file, fn.node), f"`{ty}::to_tokens` emits {emitted}; every field {fields} must be re-emitted once, in order", {})
 
 
+def rule_expansion_pair(ctx):
+    """PAIR: every `Expansion { .. }` built by the fmt derives (per struct, per variant) is asked for its body *and* its bounds, both unconditionally in the block that built it: `generate_bounds()` is also the only place where the user's `bound(..)` predicates enter the where-clause, so skipping it for some shape of variant (no fields) silently drops them."""
+    n = 0
+    for rel in (DISPLAY, DEBUG):
+        for fn in A.functions(ctx.files[rel]):
+            if fn.block is None:
+                continue
+            for st, ps in A.find(fn.block, "Stmt::Local"):
+                init = st.get("init")
+                if not init or A.kind(init["expr"]) != "Expr::Struct" or A.path_last(init["expr"]["path"]) != "Expansion":
+                    continue
+                names = A.pat_idents(st["pat"])
+                if len(names) != 1:
+                    continue
+                v = names[0]
+                blk = next((p for p in reversed(ps) if A.kind(p) == "Block"), None)
+                if blk is None:
+                    continue
+                n += 1
+                after = blk["stmts"][blk["stmts"].index(st) + 1 :]
+                got = {}
+                for meth in ("generate_body", "generate_bounds"):
+                    uncond = False
+                    for s2 in after:
+                        for mc, ps2 in A.find(s2, "Expr::MethodCall"):
+                            if mc["method"]["sym"] == meth and A.render(mc["receiver"]) == v:
+                                # nothing conditional between the statement and the call
+                                if not any(A.kind(p) in ("Expr::If", "Expr::Match", "Expr::Closure", "Expr::While", "Expr::ForLoop") for p in ps2):
+                                    uncond = True
+                    got[meth] = uncond
+                ctx.instance(f"{rel}::{fn.qual}:pair:{v}", sample={"fn": f"{rel}::{fn.qual}", "expansion": v, "unconditional": got})
+                for meth, ok in got.items():
+                    if not ok:
+                        ctx.report(
+                            f"{rel}::{fn.qual}:pair:{meth}",
+                            ctx.where(fn.file, st),
+                            f"`{fn.qual}` builds an `Expansion` (`{v}`) but does not call `{v}.{meth}()` unconditionally: "
+                            + ("the where-predicates of such items - the user's own `#[display(bound(..))]` included - are dropped for the shapes that skip it" if meth == "generate_bounds" else "some shapes get no body"),
+                            {},
+                        )
+    ctx.floor("Expansion literals", n, 4)
+
+
+def rule_attr_separator(ctx):
+    """SEP-END: the templates hand `#attr` to `write!` / `format_args!` followed by `, <more arguments>`; so the tokens a FmtAttribute re-emits must never *end* in a separator. Its parser therefore drops a trailing comma after the last argument (`args.pop_punct()`) *and* the comma after the literal when no argument follows (`"lit",`), or ToTokens emits that comma only together with arguments. Otherwise `#[display("lit",)]` - a trailing comma, which `format!` accepts - expands to `write!(f, "lit", , )`."""
+    pf = A.get_fn(ctx.files, MOD, "<FmtAttribute as Parse>::parse")
+    tf = A.get_fn(ctx.files, MOD, "<FmtAttribute as ToTokens>::to_tokens")
+    pt, tt = A.fn_text(pf), A.fn_text(tf)
+    fields = struct_fields(ctx, MOD, "FmtAttribute")
+    ctx.instance("sep:fields", sample=fields)
+    if fields != ["lit", "comma", "args"]:
+        raise A.AnchorLost(f"{MOD}::FmtAttribute", f"fields {fields}")
+    ctx.instance("sep:args-trailing")
+    if A.wsearch(pt, "parsed.args.pop_punct()") is None:
+        ctx.report("sep:args-trailing", ctx.where(pf.file, pf.node), "the parser no longer drops the trailing comma after the last argument: `#[display(\"{}\", x,)]` expands to `write!(f, \"{}\", x, , ..)`", {})
+    ctx.instance("sep:literal-comma")
+    cleared = A.wsearch(pt, "if parsed.args.is_empty(){parsed.comma=None}") is not None or A.wsearch(pt, "if parsed.args.is_empty(){parsed.comma.take()") is not None
+    conditional = A.wsearch(tt, "if !self.args.is_empty(){self.comma.to_tokens(tokens)") is not None
+    if not (cleared or conditional):
+        ctx.report(
+            "sep:literal-comma",
+            ctx.where(pf.file, pf.node),
+            "a comma after the literal is kept (and re-emitted) even when no argument follows: `#[display(\"lit\",)]` / `#[debug(\"lit\",)]` - a trailing comma, which `format!(\"lit\",)` accepts - expands to `write!(f, \"lit\", , )` and does not compile",
+            {"parse": pt[-260:], "to_tokens": tt},
+        )
+
+
 def rule_binder_align(ctx):
     """IDX-ALIGN(fmt): the name a field is bound under (`ident` or `_{i}`) and the member it is read from (`self.<ident>` / `self.<i>`) come from the same `(i, f)` of one `.enumerate()` over the fields; enum matchers list the binders in field order; `FieldsExt::fmt_args_idents` (the reader side) uses the identical scheme."""
     n = 0
@@ -749,6 +816,14 @@ def rule_traversal(ctx):
             pass
     if "ty.contains_generics(type_params)" not in ptxt or "inputs.iter().any(|ty|ty.contains_generics(type_params))" not in ptxt:
         ctx.report("traverse:Path:args", ctx.where(pf.file, pf.node), "`Path::contains_generics` no longer recurses into generic / parenthesised arguments", {})
+    from . import gendet
+
+    gendet.early_returns_are_positive(
+        ctx,
+        [fn, pf],
+        "traverse",
+        "for `<u8 as Select<T>>::Out` the qualified self type `u8` says no and the trait path's generic arguments (`Select<T>`) are never searched, so the bound on that field type is not generated",
+    )
     tf = ";".join(A.render_stmt(s) for s in fn.block["stmts"])
     ctx.instance("Type::Path:qself")
     if "qself.ty.contains_generics(type_params)" not in tf:
